@@ -3,13 +3,26 @@ import Juniper.Proofs.ParDoMeasure
 # C13 — `parallel.Do` / `DoContext` do return: progress by a decreasing measure
 
 `Props/C13.lean` states the barrier as a safety property ("returns only after every started call has
-finished"). This file adds the liveness half at full strength: a measure `M.phi` that **every** step of
-the LTS strictly decreases — internal steps (`fetch`, `check`, `begin`, `egDone`, `ret`) *and* the
-environment's (`fEnd`, `callerCancel`) — bounded by `4·n + 2·workers + 2` in the initial state. So every
-run of `Do`/`DoContext`, under any scheduler and any behaviour of `f`, has at most that many steps; a
-state in which the library can do nothing more and no call of `f` is running is a returned state; and
-`f` can always return. Together: once all calls of `f` that were begun have returned, `Do` returns, after
-at most `M.phi` further steps.
+finished"). This file adds the liveness half. What is proved, exactly:
+
+* a measure `M.phi : Cfg → St → Nat` that **every** step of the LTS strictly decreases — the library's steps
+  (`fetch`, `check`, `begin`, `egDone`, `ret`) *and* the environment's (`fEnd` = a call of `f` returns,
+  `callerCancel`) — from any state, reachable or not; `M.phi (init) ≤ 4·n + 2·W + 2` (`W` = goroutines that
+  call `f`). So every run, under any scheduler and any behaviour of `f`, has at most that many steps
+  (`do_measure`, `do_steps_bounded`): no livelock, no infinite run;
+* enabledness: in a reachable state that has not returned, a library step is enabled or a call of `f` is in
+  progress (`do_returns_when_calls_return`): the library never waits on itself; quiescent with no call
+  running ⇒ returned;
+* existence of a run to the return that uses only library steps and returns of `f` (`do_terminates`).
+
+What is **assumed**, not proved, for "`Do` returns once every call of `f` has returned": scheduler fairness
+in the weak form *a library step that is enabled is eventually taken* (Go runs runnable goroutines), and
+that every call of `f` that began does return (environment assumption, part of the property text). The
+measure counts environment steps too, so no assumption about how often the environment may act is needed.
+Content vs model shape: the bound depends on the regenerated loop headers and clamps through `Code.Sound`
+(`nW ≤ max 1 reqPar`); that `.ret` is enabled when all workers are done is the hand-written `Wait` guard
+(see `do_barrier`). The wrappers `Map` / `MapContext` add no step of their own (a wrapper step is a callee
+step: `Proofs/ParWrap.wstep_core`), so the bounds carry over through `core_reach`.
 -/
 namespace Juniper.Props.C13Progress
 open Juniper.Gen Juniper.Model.ParDo Juniper.Proofs.ParDo
@@ -21,7 +34,7 @@ theorem do_measure (cfg : Cfg) (hc : cfg.code = doCode ∨ cfg.code = dcCode) :
     (∀ s l s', step cfg s l = some s' → M.phi cfg s' < M.phi cfg s) ∧
     M.phi cfg (init cfg) ≤ 4 * cfg.n + 2 * nW cfg + 2 ∧
     (nW cfg : Int) ≤ max 1 (reqPar cfg) := by
-  have hs := code_sound hc
+  have hs : cfg.code.Sound := by pardo_sound hc
   refine ⟨fun s l s' h => M.phi_decreases hs h, M.phi_init_le hs, ?_⟩
   unfold nW
   split
@@ -47,7 +60,7 @@ theorem do_steps_bounded (cfg : Cfg) (hc : cfg.code = doCode ∨ cfg.code = dcCo
     (∀ ls s, run cfg (init cfg) ls = some s → ls.length + M.phi cfg s ≤ 4 * cfg.n + 2 * nW cfg + 2) ∧
     (∀ s ls s', run cfg s ls = some s' → ls.length + M.phi cfg s' ≤ M.phi cfg s) ∧
     ¬ ∃ σ : Nat → St, ∀ n, ∃ l, step cfg (σ n) l = some (σ (n + 1)) := by
-  have hs := code_sound hc
+  have hs : cfg.code.Sound := by pardo_sound hc
   refine ⟨?_, fun s ls s' h => M.run_phi hs h, ?_⟩
   · intro ls s h
     have := M.run_phi hs h
@@ -74,13 +87,15 @@ example : ∃ ls s, run ⟨doCode, 2, 3, 8⟩ (init ⟨doCode, 2, 3, 8⟩) ls = 
 /-- **`Do` returns once its calls have returned.** In every reachable state in which no internal step of
 the library is enabled (quiescent) and no call of `f` is in progress — every call that began has ended
 — `Do` / `DoContext` has returned. Equivalently: while the call has not returned, the library can move
-or a call of `f` is running; the library never waits on itself. -/
+or a call of `f` is running; the library never waits on itself. (Safety statements about reachable
+states: they say which states are stuck, not that an enabled step is taken — that is the fairness
+assumption named in the header.) -/
 theorem do_returns_when_calls_return (cfg : Cfg) (hc : cfg.code = doCode ∨ cfg.code = dcCode)
     (s : St) (h : Reach cfg s) :
     (M.Quiescent cfg s → running s = 0 → s.ret.isSome = true) ∧
     (s.ret = none → (∃ l s', l.isEnv = false ∧ step cfg s l = some s') ∨ 0 < running s) ∧
     (running s = 0 → ∀ i, endedCount s i = begunCount s i) := by
-  have hs := code_sound hc
+  have hs : cfg.code.Sound := by pardo_sound hc
   have hp : s.ret = none → (∃ l s', l.isEnv = false ∧ step cfg s l = some s') ∨ 0 < running s := by
     intro hret
     rcases M.progress hs h hret with ⟨l, hl, hen⟩ | hr
@@ -113,15 +128,17 @@ example : ∃ s, Reach ⟨dcCode, 2, 2, 8⟩ s ∧ s.ret = none ∧ running s = 
 
 /-- **Termination.** From every reachable state: (1) every continuation has at most `M.phi` steps; (2) a
 continuation that ends quiescent with no call of `f` running has returned; (3) there is a continuation
-made only of internal steps and returns of `f` that ends in a returned state. So, provided every call
-of `f` returns, `Do` / `DoContext` returns — within `M.phi cfg s ≤ 4·n + 2·W + 2` steps of the whole system. -/
+made only of internal steps and returns of `f` that ends in a returned state. So, **assuming** every call
+of `f` that began returns and an enabled library step is eventually taken (weak fairness of the Go
+scheduler; neither is proved here), `Do` / `DoContext` returns — within `M.phi cfg s ≤ 4·n + 2·W + 2` steps
+of the whole system, environment steps included. -/
 theorem do_terminates (cfg : Cfg) (hc : cfg.code = doCode ∨ cfg.code = dcCode) (s : St) (h : Reach cfg s) :
     (∀ ls s', run cfg s ls = some s' → ls.length + M.phi cfg s' ≤ M.phi cfg s) ∧
     M.phi cfg s ≤ 4 * cfg.n + 2 * nW cfg + 2 ∧
     (∀ ls s', run cfg s ls = some s' → M.Quiescent cfg s' → running s' = 0 → s'.ret.isSome = true) ∧
     (∃ ls s', (∀ l ∈ ls, l.isEnv = false ∨ ∃ w r, l = .fEnd w r) ∧ run cfg s ls = some s' ∧
       ls.length ≤ M.phi cfg s ∧ s'.ret.isSome = true) := by
-  have hs := code_sound hc
+  have hs : cfg.code.Sound := by pardo_sound hc
   refine ⟨fun ls s' hr => M.run_phi hs hr, ?_, ?_, ?_⟩
   · have hb := M.phi_init_le hs
     have : M.phi cfg s ≤ M.phi cfg (init cfg) := by
